@@ -31,7 +31,14 @@ def wordlist():
 
 
 def counter_entropy(k, n):
-    return bytes((k * 131 + i * 17 + 7) & 0xff for i in range(n))
+    """the shim's default pattern (shim/getentropy_shim.c): a 64-bit LCG seeded by the request number"""
+    m = (1 << 64) - 1
+    x = (0x9E3779B97F4A7C15 * (k + 1) + 0x1234567) & m
+    out = bytearray()
+    for _ in range(n):
+        x = (x * 6364136223846793005 + 1442695040888963407) & m
+        out.append(x >> 56)
+    return bytes(out)
 
 
 def phrase_of(ent):
@@ -174,6 +181,9 @@ def run(ctx):
             k += 1
             if k > 5000:
                 break
+        if k > 5000:
+            ctx.note("scripted search for %s not decided by the oracle within 5000 candidates; case skipped" % p)
+            continue
         if r.cls != "ok" or r.stdout.decode().strip() != ph:
             ctx.violation("scripted-exact-phrase", case, dict(request=k, phrase=ph), str(r))
         log = os.path.join(tmp, "log%d" % i)
